@@ -19,7 +19,10 @@ Record facts := {
   f_pushd_saves : pushd_saves_t;
   f_pushd_finally : bool;          (* os.chdir(old) sits in a finally block around the yield *)
   f_nb_suffix : pystr;             (* the argument of path.endswith(...) in _get_diff_entry_stream *)
-  f_allpaths_base : allpaths_base_t (* resolve_diff_args, three or more positionals, first is not a ref *)
+  f_allpaths_base : allpaths_base_t; (* resolve_diff_args, three or more positionals, first is not a ref *)
+  f_skip_both : bool;              (* changed_notebooks skips an entry only when BOTH sides are not notebooks
+                                      (false: as soon as either side is not a notebook) *)
+  f_filter_in_try : bool           (* apply_possible_filter(path) is called inside the try/except IOError *)
 }.
 
 (* ------------------------------------------------------------------ paths *)
@@ -54,7 +57,8 @@ Definition chdir (cwd : path) (d : dirarg) : path :=
 Definition content := N.                       (* identifier of a file content *)
 Inductive fres := FNone                        (* apply_possible_filter returned the path: no filter *)
                 | FSome (c : content)          (* filtered content *)
-                | FRaise.                      (* it raised *)
+                | FRaiseIO                     (* it raised IOError/OSError (the file is not there) *)
+                | FRaise.                      (* it raised something else *)
 Inductive ref := RCommit (name : pystr) | RIndex | RWorktree.
 Record entry := { a_path : path; a_blob : option content; b_path : path; b_blob : option content }.
 Record world := {
@@ -71,9 +75,10 @@ Inductive stream := SMissing                   (* EXPLICIT_MISSING_FILE *)
 Inductive outcome := ONotNb | OStream (s : stream) | ORaise.
 
 (* body of `with pushd(repo_dir):`, executed with working directory cwd *)
-Definition pushd_body (W : world) (cwd p : path) : outcome :=
+Definition pushd_body (F : facts) (W : world) (cwd p : path) : outcome :=
   match w_filter W cwd p with
   | FRaise => ORaise
+  | FRaiseIO => if f_filter_in_try F then OStream SMissing else ORaise
   | FSome c => OStream (SFiltered p c)
   | FNone => match w_fs W (cwd ++ p) with
              | Some c => OStream (SFile p c)
@@ -93,7 +98,7 @@ Definition get_stream (F : facts) (W : world) (cwd : path) (p : path) (blob : op
     | RWorktree =>
         let old := match f_pushd_saves F with Curdir => Up 0 | Getcwd => Abs cwd end in
         let cwd1 := chdir cwd repo_dir in
-        let o := pushd_body W cwd1 p in
+        let o := pushd_body F W cwd1 p in
         let cwd2 := match o with
                     | ORaise => if f_pushd_finally F then chdir cwd1 old else cwd1
                     | _ => chdir cwd1 old
@@ -115,22 +120,35 @@ Definition add_reads (rd : list read) (r : result) : result :=
 Definition add_yield (y : yielded) (r : result) : result :=
   {| r_yields := y :: r_yields r; r_reads := r_reads r; r_cwd := r_cwd r; r_raised := r_raised r |}.
 
+Definition is_notnb (o : outcome) : bool := match o with ONotNb => true | _ => false end.
+(* `if fa is None: continue` placed before the remote side is looked at *)
+Definition early_skip (F : facts) (oa : outcome) : bool := negb (f_skip_both F) && is_notnb oa.
+(* the pair that is yielded, if any, once both sides are known *)
+Definition pair_of (F : facts) (oa ob : outcome) : option (stream * stream) :=
+  match oa, ob with
+  | OStream fa, OStream fb => Some (fa, fb)
+  | OStream fa, ONotNb => if f_skip_both F then Some (fa, SMissing) else None
+  | ONotNb, OStream fb => if f_skip_both F then Some (SMissing, fb) else None
+  | _, _ => None
+  end.
+Definition is_raise (o : outcome) : bool := match o with ORaise => true | _ => false end.
+
 Fixpoint cn_loop (F : facts) (W : world) (rb rr : ref) (repo_dir : dirarg) (es : list entry) (cwd : path) : result :=
   match es with
   | [] => {| r_yields := []; r_reads := []; r_cwd := cwd; r_raised := false |}
   | e :: rest =>
-    match get_stream F W cwd (a_path e) (a_blob e) rb repo_dir with
-    | (cwd1, rd1, ORaise) => {| r_yields := []; r_reads := rd1; r_cwd := cwd1; r_raised := true |}
-    | (cwd1, rd1, ONotNb) => add_reads rd1 (cn_loop F W rb rr repo_dir rest cwd1)
-    | (cwd1, rd1, OStream fa) =>
-      match get_stream F W cwd1 (b_path e) (b_blob e) rr repo_dir with
-      | (cwd2, rd2, ORaise) => {| r_yields := []; r_reads := rd1 ++ rd2; r_cwd := cwd2; r_raised := true |}
-      | (cwd2, rd2, ONotNb) => add_reads (rd1 ++ rd2) (cn_loop F W rb rr repo_dir rest cwd2)
-      | (cwd2, rd2, OStream fb) =>
-          add_reads (rd1 ++ rd2)
-            (add_yield {| y_a := fa; y_b := fb; y_cwd := cwd2 |} (cn_loop F W rb rr repo_dir rest cwd2))
-      end
-    end
+    let '(cwd1, rd1, oa) := get_stream F W cwd (a_path e) (a_blob e) rb repo_dir in
+    if is_raise oa then {| r_yields := []; r_reads := rd1; r_cwd := cwd1; r_raised := true |}
+    else if early_skip F oa then add_reads rd1 (cn_loop F W rb rr repo_dir rest cwd1)
+    else
+      let '(cwd2, rd2, ob) := get_stream F W cwd1 (b_path e) (b_blob e) rr repo_dir in
+      if is_raise ob then {| r_yields := []; r_reads := rd1 ++ rd2; r_cwd := cwd2; r_raised := true |}
+      else match pair_of F oa ob with
+           | None => add_reads (rd1 ++ rd2) (cn_loop F W rb rr repo_dir rest cwd2)
+           | Some (fa, fb) =>
+               add_reads (rd1 ++ rd2)
+                 (add_yield {| y_a := fa; y_b := fb; y_cwd := cwd2 |} (cn_loop F W rb rr repo_dir rest cwd2))
+           end
   end.
 
 Definition head_ref : ref := RCommit [72; 69; 65; 68]%N.   (* "HEAD" *)
@@ -155,7 +173,7 @@ Definition spec_stream (F : facts) (W : world) (root : path) (p : path) (blob : 
   | _ :: _ =>
     if negb (is_nb F p) then ONotNb else
     match r with
-    | RWorktree => pushd_body W root p
+    | RWorktree => pushd_body F W root p
     | _ => match blob with None => OStream SMissing | Some c => OStream (SBlob c) end
     end
   end.
@@ -164,20 +182,22 @@ Fixpoint spec_pairs (F : facts) (W : world) (root : path) (rb rr : ref) (es : li
   match es with
   | [] => ([], false)
   | e :: rest =>
-    match spec_stream F W root (a_path e) (a_blob e) rb with
-    | ORaise => ([], true)
-    | ONotNb => spec_pairs F W root rb rr rest
-    | OStream fa =>
-      match spec_stream F W root (b_path e) (b_blob e) rr with
-      | ORaise => ([], true)
-      | ONotNb => spec_pairs F W root rb rr rest
-      | OStream fb => let '(l, x) := spec_pairs F W root rb rr rest in ((fa, fb) :: l, x)
-      end
-    end
+    let oa := spec_stream F W root (a_path e) (a_blob e) rb in
+    if is_raise oa then ([], true)
+    else if early_skip F oa then spec_pairs F W root rb rr rest
+    else
+      let ob := spec_stream F W root (b_path e) (b_blob e) rr in
+      if is_raise ob then ([], true)
+      else match pair_of F oa ob with
+           | None => spec_pairs F W root rb rr rest
+           | Some pr => let '(l, x) := spec_pairs F W root rb rr rest in (pr :: l, x)
+           end
   end.
 
 Definition nb_or_none (F : facts) (p : path) : bool := match p with [] => true | _ => is_nb F p end.
-Definition entry_is_nb (F : facts) (e : entry) : bool := nb_or_none F (a_path e) && nb_or_none F (b_path e).
+Definition entry_is_nb (F : facts) (e : entry) : bool :=
+  if f_skip_both F then nb_or_none F (a_path e) || nb_or_none F (b_path e)
+  else nb_or_none F (a_path e) && nb_or_none F (b_path e).
 Definition stream_of (o : outcome) : stream := match o with OStream s => s | _ => SMissing end.
 Definition entry_pair (F : facts) (W : world) (root : path) (rb rr : ref) (e : entry) : stream * stream :=
   (stream_of (spec_stream F W root (a_path e) (a_blob e) rb), stream_of (spec_stream F W root (b_path e) (b_blob e) rr)).
